@@ -140,7 +140,10 @@ def _scribble(msg, depth=0):
   from google.protobuf import descriptor as d
   for f in msg.DESCRIPTOR.fields:
     try:
-      if f.label == d.FieldDescriptor.LABEL_REPEATED:
+      repeated = getattr(f, 'is_repeated', None)
+      if repeated is None:  # older protobuf runtimes
+        repeated = f.label == d.FieldDescriptor.LABEL_REPEATED
+      if repeated:
         cur = getattr(msg, f.name)
         if f.message_type is not None and f.message_type.GetOptions().map_entry:
           continue
@@ -211,7 +214,12 @@ class _Judge:
     # again): the converted object must not change with it
     for m in (received if isinstance(received, (list, tuple)) else [received]):
       if hasattr(m, 'DESCRIPTOR'):
+        before = m.SerializeToString(deterministic=True)
         _scribble(m)
+        if m.DESCRIPTOR.fields and m.SerializeToString(
+            deterministic=True) == before:
+          raise RuntimeError('harness: scribbling left %s unchanged' %
+                             m.DESCRIPTOR.full_name)
     diffs = cn.diff(canon(x), canon(y))
     seen = set()
     for path, kind, detail, a, b in diffs:
